@@ -1,8 +1,9 @@
 /-
   Model of the Hangul shaper's text preprocessing (`preprocess_text_hangul`) and of the buffer primitives it
   calls, over a list zipper: `out` = out_info[0 .. out_len], `inp` = info[idx .. len].
-  A glyph carries (code point, cluster, hangul_shaping_feature); masks / glyph flags are NOT modelled
-  (`unsafe_to_break*` calls only write flag bits; `set_cluster` additionally clears flag bits).
+  A glyph carries (code point, cluster, hangul_shaping_feature); masks / glyph flags are NOT modelled here
+  (`unsafe_to_break*` calls only write flag bits; `set_cluster` additionally clears flag bits) — HangulBuf.lean runs the
+  same routine statement by statement on the buffer model of Buf.lean WITH the masks (property C03).
   `none` = the Rust code would panic (index out of bounds / failed assert) or loop forever; `preprocess_keys`
   (Lemmas, = `C12_model_refines_spec`) shows that this never happens.
   Not modelled: `make_room_for`/`ensure` refusing (needs out_len + n > max_len ≥ 64·len; the shaper at most
